@@ -21,11 +21,13 @@ type MNode struct {
 	Uid, Gid  int
 	Mtime     int64
 	Atime     int64
+	OpenW     bool // a write handle is open on the file: stfs is a write-back filesystem, size and content are "don't care" until Sync/Close
 	MtimeFree bool // content was written: POSIX updates mtime, STFS keeps it; either is accepted until re-adopted
 }
 
 type Model struct {
-	N map[string]*MNode // clean absolute path -> node; "/" always present
+	N    map[string]*MNode // clean absolute path -> node; "/" always present
+	held *MHandle          // a write handle kept open across calls (witness histories only)
 }
 
 func NewModel() *Model {
@@ -351,7 +353,7 @@ func (m *Model) CompareAndAdopt(obs Tree) []string {
 			ds = append(ds, "kind:"+k+" stfs="+o.Kind+" ref="+wantKind)
 			continue
 		}
-		if !n.Dir {
+		if !n.Dir && !n.OpenW {
 			if o.Size != int64(len(n.Data)) || o.RdLen != int64(len(n.Data)) || o.Sum != sum(n.Data) {
 				ds = append(ds, sprintf("content:%s stfs(size=%d read=%d sum=%s) ref(size=%d sum=%s)", k, o.Size, o.RdLen, o.Sum, len(n.Data), sum(n.Data)))
 			}
